@@ -35,7 +35,8 @@ RULE = ("one world = seeded terminal profile (identity/version, subset of answer
 PROBES = ["reply_in_last_10pct_of_window", "da1_split_from_reply_by_delay",
           "xtversion_unsupported_env_fallback", "cell_via_ioctl", "cell_via_16t",
           "cell_via_14t", "mute_terminal_timeout", "queries_disabled_default",
-          "mixed_hex_widths", "zero_delay_replies_prequeued"]
+          "mixed_hex_widths", "zero_delay_replies_prequeued",
+          "process_stalled_at_a_clock_read"]
 COMPONENTS = {
     "real": ["term_image.utils (query_terminal, read_tty, write_tty, get_cell_size, "
              "get_fg_bg_colors, get_terminal_name_version, lock_tty, cached)",
@@ -85,6 +86,12 @@ def run(ch, ctx, fault=None):
         if cost:
             k.cost_ns[kind] = cost
     delays_seen = []
+    # a sixth of the worlds run on a machine that stalls (scheduler pause, GC, swapped-out
+    # process) for longer than the time left at one of the library's clock reads.  What the
+    # terminal said can then not be demanded any more - only that the library neither raises
+    # nor leaves the terminal modes changed ("whatever the timing").
+    stall_world = ch.bool("stall_world", 0.16)
+    stalled = [False]
 
     def delay_fn(kind):
         T = int(timeout[0] * NS)
@@ -139,6 +146,11 @@ def run(ch, ctx, fault=None):
             writes0 = k.counts.get("tty.write", 0)
             sched0 = tty.replies_scheduled
             expect = None
+            if stall_world and ch.bool("stall_now", 0.5):
+                k.fault = {"kind": "clock", "k": k.counts.get("clock", 0) + ch.int("stall_at", 1, 8),
+                           "action": "clockjump",
+                           "ns": ch.int("stall_ns", int(0.01 * NS), int(0.6 * NS))}
+                k.fault_done = False
             try:
                 if op == "colors":
                     hexa = ch.bool("hex", 0.3)
@@ -216,6 +228,11 @@ def run(ch, ctx, fault=None):
                 ctx.op("%s raised %r" % (op, e))
                 raise Violation("query_op_raised", {"op": op, "exc": repr(e),
                                                     "profile": profile.describe()}, op)
+            if k.fault is not None and k.fault.get("action") == "clockjump":
+                if k.fault_done:
+                    stalled[0] = True
+                    ctx.probe("process_stalled_at_a_clock_read")
+                k.fault = None
             elapsed = k.now - t_start
             nq = k.counts.get("tty.write", 0) - writes0
             ctx.op("%s -> %r   [%.4fs virtual, %d queries]" % (desc, got, elapsed / NS, nq))
@@ -223,6 +240,15 @@ def run(ch, ctx, fault=None):
             ctx.key(op, repr(expect), [d * 10 // max(1, int(timeout[0] * NS)) for d in delays_seen[-4:]])
             if nq and tty.replies_scheduled == sched0:
                 ctx.probe("mute_terminal_timeout")
+            if stalled[0]:
+                # after a stall the premise "each reply arrives before the timeout" is gone
+                # (and with it what the memoized getters hold): only the terminal modes count
+                if tty.last_reply_at > k.now:
+                    k.advance(tty.last_reply_at - k.now)
+                tty.inq.clear()
+                check(tty.attrs == entry_copy, "terminal_attributes_not_restored",
+                      {"op": desc, "after": "stall"}, op)
+                continue
             check(got == expect, "reported_value_differs_from_terminal",
                   {"op": desc, "got": repr(got), "expected": repr(expect),
                    "profile": profile.describe(), "cell_px": vt.cell_px,
